@@ -44,6 +44,8 @@ impl Engine for ComposerSim {
         match profile {
             "factory" => Scenario::Factory(factory::generate(tier, seed)),
             "executor" => Scenario::Executor(executor_sim::generate(tier, seed)),
+            // exploration outside the registered fault model, see NOTES.md
+            "executor-lostresp" => Scenario::Executor(executor_sim::generate_lostresp(tier, seed)),
             other => panic!("unknown profile {other}"),
         }
     }
